@@ -28,7 +28,7 @@ T = {
          "Theorems (Props/C04.v): the tree machine TM simulates the plain-value machine VM step by step (relation: every handle's backing represents its value), lifted to all finite histories; errors leave the state unchanged. Correspondence: exhaustive short histories on 8 small types and random long histories with retained/nested sub-views: Go vs HM vs TM vs VM after every step.",
          "machine-checked refinement proof (Coq) + differential correspondence on histories"),
  "C05": ("backing trees are persistent",
-         "Theorems (Props/C05.v): on the heap machine every step only appends cells; h_merkle only fills unset memos; abstraction of every existing address is stable over all histories; copies are detached. Correspondence: snapshots (node pointer, raw root) taken before steps and re-derived from the raw node structure after every later step, incl. zero nodes.",
+         "Theorems (Props/C05.v): on the heap machine every step only appends cells; h_merkle only fills unset memos; abstraction of every existing address is stable over all histories; copies are detached; the heap machine refines the pure tree machine of C04 step by step (C05_heap_machine_refines_tree_machine, C05_refined_history_root). Correspondence: snapshots (node pointer, raw root) taken before steps and re-derived from the raw node structure after every later step, incl. zero nodes.",
          "machine-checked invariant proof (Coq) + differential correspondence with raw re-derivation"),
  "C06": ("cached Merkle roots are never stale",
          "Theorems (Props/C06.v): memo_ok is an invariant of every machine step and of h_merkle; under it h_merkle returns the root of the abstraction, independent of earlier requests. Correspondence: hash requests at every subset of positions of short histories, every reachable memoised pair re-derived from its children.",
@@ -52,7 +52,7 @@ T = {
          "Theorems (Props/C12.v): summarising preserves the root; on a summarised tree every read/mutation of the model is an error or agrees with the full tree. Correspondence: 1..3 summarised positions (exhaustive for small backings) x reads, iterators and single mutations; Go vs model, and the error-or-same relation checked on both.",
          "machine-checked proof (Coq) + differential correspondence + property relation on every case"),
  "C13": ("codec I/O is independent of chunking and surfaces faults",
-         "Theorems (Props/C13.v): the fill loop over any legal delivery schedule returns the same bytes as a one-shot reader; a stream that ends or fails before k bytes makes the read fail; a failing writer accepts exactly a prefix and Written equals it. Partial: the composition with the decoders is by the decoders being functions of the read primitive only (argued in DESIGN, exercised by the correspondence). Correspondence: primitive read sequences over random schedules; every delivery schedule and every failure position for sampled values (view and flat).",
+         "Theorems (Props/C13.v): the fill loop over any legal delivery schedule returns the same bytes as a one-shot reader (C13_schedule_indep, C13_reader_agrees ties it to the reader model the decoders use); a stream that ends or fails before k bytes makes the read fail; at decoder level a stream shorter than the declared scope never yields a value (C13_short_stream_decode); Skip consumes like a read; a failing writer (lazy or eager error reporting) accepts exactly a prefix and Written equals it. Partial: schedule independence of whole decoders is by the decoders reading only through the primitive proved schedule-independent (not restated over decoders). Correspondence: primitive read sequences over random schedules; every delivery schedule and every failure position for sampled values (view and flat).",
          "machine-checked proof (Coq) of the I/O primitives + fault/schedule enumeration against the implementation"),
  "C14": ("forks of a hashed tree can be used concurrently",
          "Theorems (Props/C14.v): a fully memoised heap prefix is bit-identical after any step or hash request of any fork (frozen prefix); outputs of a fork depend only on cells reachable from its handles. Partial: the Go memory model is not modelled; data races are searched by go test -race on 2..16 goroutines, not proved absent. Correspondence: per-goroutine observations vs the sequential model replay.",
@@ -73,7 +73,7 @@ T = {
          "Theorems (Props/C19.v, 30 statements): print/parse round trips for every width incl. uint256, no truncation (the narrowing casts are identities), decimal exactness, denotation of every accepted syntax, fixed-size hex accepts exactly 2k hex digits. strconv.ParseUint / math/big scanning are transcribed (trusted base). Correspondence: all uint8, uint16 (sampled in quick), boundary/random wider, ~2500 numeric texts x 6 entry points, hex texts of every length 0..80.",
          "machine-checked proof (Coq) + differential correspondence"),
  "C20": ("decoding memory is bounded by input size",
-         "Theorems (Props/C20.v): the instrumented decoder computes the same result as the decoder; its allocation charge is bounded by perbyte(t)*|input| + foot(t) where neither depends on a list limit; a list length is accepted only if it fits the scope. Partial: the Go allocator is not modelled; measured TotalAlloc per call must stay within 4x the model's charge + 16 KiB. Correspondence: hostile offset words against limits up to 2^40, corruptions; view and flat decoders.",
+         "Theorems (Props/C20.v): the instrumented decoder computes the same result as the decoder; its allocation charge is bounded by 2*perbyte(t)*|input| + foot(t) (C20_bound_top) and by perbyte(t) per byte actually consumed on success, where neither perbyte nor foot depends on a list limit (C20_bound_limit_free); a list length is accepted only if it fits the scope. Partial: the Go allocator is not modelled; measured TotalAlloc per call must stay within 4x the model's charge + 16 KiB. Correspondence: hostile offset words against limits up to 2^40, corruptions; view and flat decoders.",
          "machine-checked proof (Coq) of the allocation accounting + measured allocation against the model"),
 }
 
